@@ -23,6 +23,7 @@ pub struct Profile {
     pub w_memo: u32,
     pub w_onupdate: u32,
     pub w_isstable: u32,
+    pub w_setmax: u32,
     /// allow cutoffs that suppress unequal values (off for C01)
     pub noneq_cutoffs: bool,
     /// percent of node functions that carry re-entrant effects
@@ -65,6 +66,7 @@ impl Profile {
             w_memo: 0,
             w_onupdate: 1,
             w_isstable: 1,
+            w_setmax: 1,
             noneq_cutoffs: true,
             fx_pct: 12,
             hfx_pct: 40,
@@ -193,7 +195,7 @@ impl<'a> G<'a> {
         let leaf = depth >= 3;
         let w_memo = if self.nmemo > 0 { 2 } else { 0 };
         let w_local = if self.p.w_memo > 0 { 2 } else { 0 };
-        let k = if leaf { self.r.weighted(&[5, 2, 0, 0, 1, 0, 0, w_memo, w_local]) } else { self.r.weighted(&[4, 2, 5, 2, 1, 1, if bind_depth < 2 { 2 } else { 0 }, w_memo, w_local]) };
+        let k = if leaf { self.r.weighted(&[5, 2, 0, 0, 1, 0, 0, w_memo, w_local, 0, 0]) } else { self.r.weighted(&[4, 2, 5, 2, 1, 1, if bind_depth < 2 { 2 } else { 0 }, w_memo, w_local, 1, 1]) };
         match k {
             0 => BodyExpr::Outer(self.r.below(4)),
             1 => BodyExpr::Const(self.val()),
@@ -213,7 +215,9 @@ impl<'a> G<'a> {
             }
             6 => BodyExpr::Bind(Box::new(self.body_expr(depth + 1, bind_depth)), Box::new(self.body(bind_depth + 1))),
             7 => BodyExpr::Memo { m: self.r.below(4), k: self.val() },
-            _ => BodyExpr::LocalMemo { k: self.val() },
+            8 => BodyExpr::LocalMemo { k: self.val() },
+            9 => BodyExpr::Ref(Box::new(self.body_expr(depth + 1, bind_depth)), self.r.below(2) as u8),
+            _ => BodyExpr::WithOld(Box::new(self.body_expr(depth + 1, bind_depth)), self.f1()),
         }
     }
     fn body(&mut self, bind_depth: u32) -> BodySpec {
@@ -560,6 +564,7 @@ pub fn gen_plan(seed: u64, p: &Profile) -> Plan {
             p.w_memo,
             p.w_onupdate,
             p.w_isstable,
+            p.w_setmax,
         ];
         let a = match g.r.weighted(&w) {
             0 => g.build(),
@@ -629,7 +634,10 @@ pub fn gen_plan(seed: u64, p: &Profile) -> Plan {
                 }
             }
             14 => Action::OnUpdate { node: g.idx(), pool: g.pool() },
-            _ => Action::IsStable,
+            15 => Action::IsStable,
+            // a legal reconfiguration of the height limit, at any point between two actions (also
+            // between a write and its stabilise)
+            _ => Action::SetMaxHeight { n: g.r.below(64) },
         };
         actions.push(a);
     }
